@@ -393,8 +393,38 @@ func safeRead(m api.Memory, off, n uint32) (ok bool, pan string) {
 			pan = fmt.Sprint(r)
 		}
 	}()
-	_, ok = m.Read(off, n)
+	var v []byte
+	v, ok = m.Read(off, n)
+	if ok {
+		// the view is the host's access path: nothing beyond offset+length may be reachable through it
+		// (re-slicing up to cap, or append writing in place), whatever capacity the buffer has behind it
+		if reach := uint64(off) + uint64(cap(v)); cap(v) != len(v) {
+			readViewReach = fmt.Sprintf("Read(%#x, %#x) returned a view with len %d and cap %d: bytes up to offset %#x are reachable through it (memory size %#x)", off, n, len(v), cap(v), reach, m.Size())
+		}
+	}
 	return
+}
+
+// readViewReach: set by safeRead when a returned view exposes more than was asked for
+var readViewReach string
+
+func (i *inst) reportViewReach() {
+	if readViewReach != "" {
+		rep.Violate(hx.Violation{Kind: "impl-violation", Signature: "C14:read-view-reaches-beyond-length", What: readViewReach, Input: i.input()})
+		readViewReach = ""
+	}
+}
+
+// appendAtEnd: what an embedder may do with a Read view (the documentation says appending disconnects it):
+// append to a view that ends at the end of the memory.  If the append wrote in place, the bytes land beyond the
+// current size and the next grow exposes them (checked by contents()).
+func (i *inst) appendAtEnd() {
+	if sz := i.mem.Size(); sz >= 4 && i.cur < 65536 {
+		if v, ok := i.mem.Read(sz-4, 4); ok {
+			v = append(v, []byte("-OVERFLOW-OVERFLOW")...)
+			_ = v
+		}
+	}
 }
 
 func (i *inst) probes(r interface{ Intn(int) int }) {
@@ -577,8 +607,10 @@ func history(c config, deltas []uint32, r interface{ Intn(int) int }) {
 	rep.Count("instantiate:ok")
 	i.sizes()
 	i.probes(r)
+	i.reportViewReach()
 	for k, d := range deltas {
 		old := i.cur * 65536
+		i.appendAtEnd()
 		via := 0
 		if r.Intn(3) == 0 {
 			via = 1 + r.Intn(len(inFn))
@@ -588,6 +620,7 @@ func history(c config, deltas []uint32, r interface{ Intn(int) int }) {
 		i.contents(old)
 		if k == len(deltas)-1 || r.Intn(3) == 0 {
 			i.probes(r)
+			i.reportViewReach()
 		}
 	}
 	rep.Sample(i.input())
